@@ -23,7 +23,7 @@ from tlc import MachineryError, run_tlc
 PROP = "C15"
 
 LITS = ['I(0)', 'I(1)', 'I(2)', 'I(-1)', 'B(TRUE)', 'B(FALSE)', 'None', 'S(<<>>)', 'S(<<97>>)',
-        'T(<<>>)', 'T(<<I(1)>>)', 'L(<<I(1)>>)']
+        'T(<<>>)', 'T(<<I(1)>>)', 'L(<<I(1)>>)', 'T(<<I(2), I(2)>>)', 'L(<<I(2), I(0), I(1)>>)']   # len differs from sum / max
 LITS_SMALL = ['I(0)', 'I(2)', 'I(-1)', 'B(TRUE)', 'None', 'S(<<97>>)', 'T(<<I(1)>>)']
 LITS_TINY = ['I(0)', 'I(2)', 'B(TRUE)', 'S(<<97>>)']
 ARITH = ["+", "-", "*", "/", "//", "%", "**"]
